@@ -100,7 +100,7 @@ func rayIntersectsSegment(p, a, b Point) bool {
 		if p.X > b.X {
 			return false
 		}
-		if p.X < a.X {
+		if p.X <= a.X {
 			return true
 		}
 	}
